@@ -440,17 +440,6 @@ fn raw_expected(c: &Case, l: &[Ent]) -> Option<Vec<(char, u64, u64)>> {
         .collect()
 }
 
-/// does the list contain an entry whose first word in the DWARF <= 4 encoding is all-ones
-/// (recorded finding C16-1)?
-fn ones_begin(c: &Case, l: &[Ent]) -> bool {
-    c.enc.version <= 4
-        && l.iter().any(|e| match e {
-            Ent::OffsetPair(b, _, _) => *b == mask(c.enc.address_size),
-            Ent::StartEnd(b, _, _) | Ent::StartLength(b, _, _) => konst(b) == Some(mask(c.enc.address_size)),
-            _ => false,
-        })
-}
-
 struct ReadBack {
     ustart: u64,
     base_offs: Vec<u64>,
@@ -529,7 +518,6 @@ fn read_back(c: &Case, s: &Sections<EndianVec<RunTimeEndian>>, index: usize) -> 
     // range lists
     for (j, v) in rattrs.iter().enumerate() {
         let Some(l) = c.rng.get(j) else { break };
-        let suffix = if ones_begin(c, l) { "-ones-begin" } else { "" };
         let off = match dwarf.attr_ranges_offset(&unit, *v) {
             Ok(Some(o)) => o,
             other => {
@@ -555,7 +543,7 @@ fn read_back(c: &Case, s: &Sections<EndianVec<RunTimeEndian>>, index: usize) -> 
         let want = naive_resolve(asz, want_base, l).map(|v| v.into_iter().map(|(b, e, _)| (b, e)).collect::<Vec<_>>());
         match (&got, &want) {
             (Ok(g), Some(w)) if g == w => {}
-            _ => fail(&format!("ranges-differ{suffix}"), format!("list={j} expected={want:?} got={got:?}")),
+            _ => fail("ranges-differ", format!("list={j} expected={want:?} got={got:?}")),
         }
         // raw
         let graw: Result<Vec<(char, u64, u64)>, String> = (|| {
@@ -580,13 +568,12 @@ fn read_back(c: &Case, s: &Sections<EndianVec<RunTimeEndian>>, index: usize) -> 
         let wraw = raw_expected(c, l);
         match (&graw, &wraw) {
             (Ok(g), Some(w)) if g == w => {}
-            _ => fail(&format!("raw-ranges-differ{suffix}"), format!("list={j} expected={wraw:?} got={graw:?}")),
+            _ => fail("raw-ranges-differ", format!("list={j} expected={wraw:?} got={graw:?}")),
         }
     }
     // location lists
     for (j, v) in lattrs.iter().enumerate() {
         let Some(l) = c.loc.get(j) else { break };
-        let suffix = if ones_begin(c, l) { "-ones-begin" } else { "" };
         let off = match dwarf.attr_locations_offset(&unit, *v) {
             Ok(Some(o)) => o,
             other => {
@@ -612,12 +599,12 @@ fn read_back(c: &Case, s: &Sections<EndianVec<RunTimeEndian>>, index: usize) -> 
         match (&got, &want) {
             (Ok(g), Some(w)) if g == w => {}
             (Ok(g), Some(w)) if g.len() == w.len() && g.iter().zip(w.iter()).all(|(a, b)| a.0 == b.0 && a.1 == b.1) => {
-                fail(&format!("expr-differ{suffix}"), format!("list={j}"))
+                fail("expr-differ", format!("list={j}"))
             }
             _ => {
                 let short = |v: &Vec<(u64, u64, Vec<u8>)>| v.iter().map(|(b, e, d)| format!("{b}..{e}:{}", d.len())).collect::<Vec<_>>().join(",");
                 fail(
-                    &format!("locations-differ{suffix}"),
+                    "locations-differ",
                     format!("list={j} expected={:?} got={:?}", want.as_ref().map(short), got.as_ref().map(short)),
                 )
             }
@@ -660,7 +647,7 @@ fn read_back(c: &Case, s: &Sections<EndianVec<RunTimeEndian>>, index: usize) -> 
                     }
                     let decodable = x.iter().all(|op| !matches!(op, XOp::Simple(_)));
                     if decodable && got_refs != want_refs {
-                        fail(&format!("expr-refs-differ{suffix}"), format!("list={j} expected={want_refs:?} got={got_refs:?}"));
+                        fail("expr-refs-differ", format!("list={j} expected={want_refs:?} got={got_refs:?}"));
                     }
                 }
             }
@@ -689,7 +676,7 @@ fn read_back(c: &Case, s: &Sections<EndianVec<RunTimeEndian>>, index: usize) -> 
         let wraw = raw_expected(c, l);
         match (&graw, &wraw) {
             (Ok(g), Some(w)) if g == w => {}
-            _ => fail(&format!("raw-locations-differ{suffix}"), format!("list={j} expected={wraw:?} got={graw:?}")),
+            _ => fail("raw-locations-differ", format!("list={j} expected={wraw:?} got={graw:?}")),
         }
     }
     Ok(rb)
@@ -698,7 +685,9 @@ fn read_back(c: &Case, s: &Sections<EndianVec<RunTimeEndian>>, index: usize) -> 
 /// "Lists that cannot be represented unambiguously in the chosen encoding — empty ranges, pairs
 /// that need or conflict with a base address, default locations before v5 — are rejected": the
 /// first such entry of a unit written in DWARF 2–4, naively (the unit has a base address iff its
-/// root has a DW_AT_low_pc other than the constant 0; a BaseAddress entry provides one from there on)
+/// root has a DW_AT_low_pc other than the constant 0; a BaseAddress entry provides one from there
+/// on). An entry whose first word is all-ones for the address size IS the base-address selection
+/// entry in that encoding (former finding C16-1), so it is unrepresentable as well.
 fn unrepresentable(c: &Case) -> Option<String> {
     if !(2..=4).contains(&c.enc.version) {
         return None;
@@ -713,6 +702,10 @@ fn unrepresentable(c: &Case) -> Option<String> {
                         None
                     }
                     Ent::OffsetPair(b, e, _) if b == e => Some("empty"),
+                    Ent::OffsetPair(b, _, _) if *b == mask(c.enc.address_size) => Some("begins-with-base-marker"),
+                    Ent::StartEnd(b, _, _) | Ent::StartLength(b, _, _) if konst(b) == Some(mask(c.enc.address_size)) => {
+                        Some("begins-with-base-marker")
+                    }
                     Ent::OffsetPair(..) if !hb => Some("needs-base"),
                     Ent::StartEnd(b, e, _) if b == e => Some("empty"),
                     Ent::StartEnd(..) if hb => Some("conflicts-with-base"),
